@@ -135,6 +135,17 @@ impl<F: Field + Send + Sync + 'static> NonPrimitiveExecutor<F> for RecomposeExec
             });
         }
 
+        // The recompose table takes everything from the witness: attached private data would
+        // be silently ignored.
+        if ctx.get_private_data().is_ok() {
+            return Err(CircuitError::IncorrectNonPrimitiveOpPrivateData {
+                op: self.op_type.clone(),
+                operation_index: ctx.operation_id(),
+                expected: "no private data".to_string(),
+                got: "private data provided for a recompose operation".to_string(),
+            });
+        }
+
         let input_wids = &inputs[0];
         let output_wid = outputs[0][0];
 
